@@ -46,6 +46,8 @@ UNPROVED = ["ownership (a result's validity is its own) is a requirement stated 
 BUDGET = {"quick": 150, "thorough": 1500}
 
 PAD_MODES = ["constant", "edge", "wrap", "symmetric", "reflect"]
+REFUSALS = ("Missing information about vector orientation", "Cannot compute divergence", "Cannot compute curl",
+            "Curl can only be computed")
 UFUNC1 = ["sin", "negative", "square", "absolute", "sign", "exp", "isfinite"]
 
 
@@ -232,7 +234,8 @@ class _Laplace(Base):
     @staticmethod
     def rtype(tys, a):
         t = tys[0]
-        return dict(t) if t["nvdim"] == 1 else with_(t, mp=defmap(t["dims"], t["nvdim"]))
+        # mapping of the stacked result: the operand's (current code) or the default one (older code) — keep what both give
+        return dict(t) if t["nvdim"] == 1 else with_(t, mp=[d for d in t["mp"] if d in defmap(t["dims"], t["nvdim"])])
 
     run = staticmethod(lambda fs, a: fs[0].laplace)
 
@@ -1057,6 +1060,12 @@ def run_prog(case):
             else:
                 res = cls.run(ins, args)
         except Exception as e:  # the generator only issues applicable operations
+            if isinstance(e, (RuntimeError, ValueError)) and any(r in str(e) for r in REFUSALS):
+                # explicit refusal about component labels / their mapping to axes (C03/C05/C12 matters, tracked only
+                # approximately by the generator): no result, nothing for C08 to check
+                obs["tags"].append("refused:" + name)
+                so["raised"] = "refused"
+                break
             fail(f"[{tag}] raised {type(e).__name__}: {str(e)[:160]}")
             so["raised"] = type(e).__name__
             break
